@@ -260,6 +260,37 @@ class C14(Check):
                 same = C.distance(C).data
                 if np.any(same != 0.0):
                     bad("distance:self-not-zero", dict(m=m))
+            # a host application that turns floating-point errors into exceptions (np.seterr(all="raise")):
+            # valid inputs, the poles included, still convert
+            ra, dec = _uniform(rng, 50)
+            dec[:6] = [np.pi / 2, -np.pi / 2, np.pi / 2, 0.0, -np.pi / 2, 1e-300]
+            ra[:3] = [0.0, 1.0, 6.0]
+            C = AngularCoordinates(np.column_stack([ra, dec]))
+            try:
+                with np.errstate(divide="raise", invalid="raise", over="raise"):  # underflow to zero is harmless
+                    vec = C.to_3d()
+                    vec[:6, :2] = np.where(np.abs(dec[:6, None]) == np.pi / 2, 0.0, vec[:6, :2])  # exact poles: x = y = 0
+                    back = AngularCoordinates.from_3d(vec)
+                    C.distance(AngularCoordinates([[0.3, np.pi / 2]]))
+                    AngularCoordinates(np.column_stack([ra[3:], dec[3:]])).mean()
+                    AngularCoordinates([[0.2, np.pi / 2], [3.0, np.pi / 2 - 1e-9]]).mean()
+                evals += 50
+                if np.any(sphere.separation(ra, dec, back.ra, back.dec).astype(float) > from3d_bound(ra, dec)):
+                    bad("from_3d:not-inverse", dict(tag="errstate-raise"))
+            except FloatingPointError as e:
+                bad("floating-point-error-on-valid-input", dict(error=str(e)[:200]))
+            # spherical mean with weights of extreme magnitude: only their ratios matter
+            for scale in (1e-170, 1e-100, 1e100, 1e160):
+                m = int(rng.integers(2, 40))
+                ra, dec = _uniform(rng, m)
+                w = rng.uniform(0.5, 2.0, m)
+                refv, norm = sphere.mean_direction(ra, dec, w)
+                if float(norm) < 1e-2:
+                    continue
+                got = AngularCoordinates(np.column_stack([ra, dec])).mean(w * scale)
+                evals += m
+                if not np.all(np.isfinite(got.data)) or float(sphere.separation_xyz(sphere.to_xyz(got.ra, got.dec)[0], refv)) > 1e-13:
+                    bad("mean:depends-on-weight-scale", dict(scale=scale, got=got.data.tolist(), m=m))
             out.append(result(HELD, cls=cls, counters=dict(coord_roundtrip_evals=evals), sample=dict(cls=cls)))
             return out
 
